@@ -1710,7 +1710,7 @@ var grdClosedExceptions = map[string]string{
 // other reason (a counter, a flag, "only the first insert can find it untrained": a first all-zero vector leaves it
 // untrained).
 func ruleGRDtrained(w *World, r *Report) {
-	r.Doc("GRD-trained", "in every insertion path that can train the int8 quantizer, each Quantize call is reached only after a training attempt or over the is-trained edge of an IsTrained test", 3)
+	r.Doc("GRD-trained", "in every insertion path that can train the int8 quantizer, each Quantize call is reached only after a training attempt or over the is-trained edge of an IsTrained test", 2)
 	ensure := w.FuncObj(hnswPkg, "Index.ensureQuantizerTrained")
 	train := w.FuncObj("pkg/core/distance", "Quantizer.Train")
 	isTr := w.FuncObj("pkg/core/distance", "Quantizer.IsTrained")
@@ -1858,4 +1858,79 @@ func ruleGRDtrainfull(w *World, r *Report) {
 	}
 	found, wit := pathQuery{fn: fn, target: callsTo(ab), avoid: callsTo(tq), blocked: notInt8Edges(w, fn)}.find(entryPos(fn))
 	r.Cond(!found, "GRD-trainfull", "DB.Compress:int8:trained-on-all-vectors-before-re-insertion", w.Pos(adds[0].Pos()), "on the int8 path TrainQuantizer precedes the first AddBatch", "DB.Compress can re-insert vectors into the int8 index without having trained the quantizer on the whole data set first: the batch path then trains on the first vector alone, and every component larger than that vector's maximum is clipped in every other vector", w.witness(wit)...)
+}
+
+// ---------- GRD-own-arg: insertion never rewrites the caller's vector ----------
+
+// ruleGRDownarg: normalisation works in place. Every call of normalize in an insertion or search path must be given
+// a slice that was allocated in the same function (make, or append to a nil slice) — never a parameter, or an element
+// or field of one: the caller may hand the same data to another index (a euclidean one would then store unit vectors).
+func ruleGRDownarg(w *World, r *Report) {
+	r.Doc("GRD-own-arg", "every call of the in-place normalize in pkg/core/hnsw (functions that are reachable from non-test code) is given a slice allocated in the same function, never the caller's own slice", 3)
+	norm := w.FuncObj(hnswPkg, "normalize")
+	if norm == nil {
+		r.Und("GRD-own-arg", "anchor:normalize", "", "anchor lost")
+		return
+	}
+	g := w.CallGraph()
+	live := func(fn *ssa.Function) bool {
+		root := fn
+		for root.Parent() != nil {
+			root = root.Parent()
+		}
+		n := g.Nodes[root]
+		if n == nil {
+			return true
+		}
+		for _, e := range n.In {
+			if e.Caller != nil && e.Caller.Func != nil && inModule(e.Caller.Func) && !isTestFile(w.Fset, e.Caller.Func.Pos()) && e.Caller.Func != root {
+				return true
+			}
+		}
+		return false
+	}
+	n := 0
+	for _, fn := range w.pkgSSAFuncs(hnswPkg) {
+		if !live(fn) {
+			continue
+		}
+		k := 0
+		for _, in := range findInstrs(fn, callsTo(norm)) {
+			n++
+			k++
+			arg := in.(*ssa.Call).Call.Args[0]
+			fresh, why := true, ""
+			for _, leaf := range valueRoots(arg) {
+				switch x := leaf.(type) {
+				case *ssa.MakeSlice:
+				case *ssa.Call:
+					if c, ok := isBuiltinCall(x, "append"); ok && len(c.Call.Args) > 0 && isNilConst(c.Call.Args[0]) {
+						continue
+					}
+					fresh, why = false, "the result of a call"
+				case *ssa.Slice:
+					// a re-slice of something fresh is fresh
+					ok := true
+					for _, l2 := range valueRoots(x.X) {
+						if _, isMk := l2.(*ssa.MakeSlice); !isMk {
+							if _, isAl := l2.(*ssa.Alloc); !isAl {
+								ok = false
+							}
+						}
+					}
+					if !ok {
+						fresh, why = false, "a re-slice of shared data"
+					}
+				case *ssa.Parameter:
+					fresh, why = false, "the parameter "+x.Name()
+				default:
+					fresh, why = false, fmt.Sprintf("shared data (%T)", leaf)
+				}
+			}
+			r.Cond(fresh, "GRD-own-arg", fmt.Sprintf("%s:normalize#%d:on-own-copy", shortFn(fn), k), w.Pos(in.Pos()), "normalises a slice allocated in this function", shortFn(fn)+" normalises "+why+" in place: the slice belongs to the caller, whose data is silently rewritten to unit length — the same records added to another index afterwards are stored as unit vectors")
+		}
+	}
+	if n == 0 {
+		r.Und("GRD-own-arg", "anchor:normalize-calls", "", "no call of normalize found in reachable functions of pkg/core/hnsw")
+	}
 }
